@@ -326,7 +326,9 @@ def rule_invoke_guard(repo: Repo, rep: Report, rid: str = "S1-invoke-guard") -> 
     ok = False
     for s in sites(inv):
         n = s.node
-        if isinstance(n, ast.Assign) and any(u(t) == "self.disposable.disposable" for t in n.targets):
+        if isinstance(n, ast.Assign) and any(u(t) == "self.disposable.disposable" for t in n.targets) and not s.ctx.branch and not s.ctx.guards:
             ok = True
-    rep.ob(rid, inv, "self.disposable.disposable = <result of action>", ok,
-           "ScheduledItem.invoke drops the disposable returned by the action (nested work cannot be cancelled)")
+    rep.ob(rid, inv, "self.disposable.disposable = <result of action>, unconditionally", ok,
+           "ScheduledItem.invoke drops the disposable returned by the action on some path (nested work cannot be cancelled): an item "
+           "cancelled while its own action runs must still hand the result to its (disposed) SingleAssignmentDisposable, which is what "
+           "disposes the follow-up the action scheduled — otherwise a self-rescheduling action cancelled from inside runs for ever")
